@@ -145,6 +145,17 @@ def len_program(cases):
         elif mode == "member":
             decls.append("struct H%d\n{\nm: %s,\n}" % (k, ty))
             body += ["var h%d: H%d = H%d { m: %s };" % (k, k, k, lit), 'print!(|h%d.m|, "\\n");' % k]
+        elif mode == "row":
+            outer = "[" + ", ".join([lit] * (n + 2)) + "]"
+            body += ["var x%d: [%d]%s = %s;" % (k, n + 2, ty, outer), 'print!(|x%d[1]|, "\\n");' % k]
+        elif mode == "constrow":
+            outer = "[" + ", ".join([lit] * (n + 2)) + "]"
+            decls.append("const K%d: [%d]%s = %s;" % (k, n + 2, ty, outer))
+            body += ['print!(|K%d[0]|, "\\n");' % k]
+        elif mode == "elemmember":
+            decls.append("struct H%d\n{\nm: %s,\n}" % (k, ty))
+            one = "H%d { m: %s }" % (k, lit)
+            body += ["var hs%d: [%d]H%d = [%s];" % (k, n + 2, k, ", ".join([one] * (n + 2))), 'print!(|hs%d[1].m|, "\\n");' % k]
         body.append('print!(|:%s|, "\\n");' % ty)
         exp.append([str(c["expect"]), str(c["size"])])
         ks.append("len n=%d mode=%s elem=%s" % (n, mode, e))
